@@ -15,7 +15,7 @@ from spydrnet.flatten import flatten  # noqa: E402
 from spydrnet.ir.outerpin import OuterPin as BaseOuterPin  # noqa: E402
 
 from .. import gen_ir, wf, probes, budget  # noqa: E402
-from ..elab import Elab  # noqa: E402
+from ..elab import Elab, is_leaf_def as elab_is_leaf  # noqa: E402
 from ..universe import Universe  # noqa: E402
 
 PROP = "C09"
@@ -47,7 +47,7 @@ def read_flat(n):
     leaves = {}
     non_leaf = []
     for c in top.children:
-        if c.reference is None or not c.reference.is_leaf():
+        if c.reference is None or not elab_is_leaf(c.reference):
             non_leaf.append(c.name)
         leaves[c.name] = (id(c.reference), data_of(c))
     classes = []
@@ -142,7 +142,7 @@ def run_case(ctx, i, rng):
             for d_ in l_.definitions:
                 for x_ in list(d_.children):
                     r_ = x_.reference
-                    if r_ is None or r_.is_leaf() or not x_.name or any(c_.name == x_.name for c_ in r_.children):
+                    if r_ is None or elab_is_leaf(r_) or not x_.name or any(c_.name == x_.name for c_ in r_.children):
                         continue
                     for coll in (list(r_.children), list(r_.cables)):
                         cands = [y_ for y_ in coll if y_.name and "EDIF.identifier" not in y_ and "/" not in y_.name]
@@ -153,13 +153,29 @@ def run_case(ctx, i, rng):
                                 ctx.count("siblings_named_like_a_flat_path")
                             except ValueError:
                                 pass
+    if i % 7 == 4 or i % 11 == 6:
+        # a hierarchical cell turned into a black box AFTER it was looked at (uniquify asked whether it is a leaf): its contents
+        # are taken out with the bulk calls, its ports stay
+        topd_ = n.top_instance.reference
+        hier_ = [c_.reference for c_ in topd_.children if c_.reference is not None and not elab_is_leaf(c_.reference) and c_.reference is not topd_]
+        for d_ in hier_[:2]:
+            for c_ in d_.cables:
+                for w_ in c_.wires:
+                    for p_ in list(w_.pins):
+                        w_.disconnect_pin(p_)
+            kids_ = list(d_.children)
+            d_.remove_cables_from(list(d_.cables))
+            d_.remove_children_from(kids_ if rng.random() < 0.5 else set(kids_))
+            for k_ in kids_:
+                k_.reference = None
+            ctx.count("cells_emptied_by_bulk_removal")
     if not flatten_phase(ctx, n, rng, i):
         return
     if i % 6 == 5 or i % 3 == 1:
         # the flat netlist (its elements now carry the identifiers flatten minted) is extended by a new piece of hierarchy and
         # flattened again in the same process
         top = n.top_instance.reference
-        leafs = [c.reference for c in top.children if c.reference is not None and c.reference.is_leaf() and c.reference.library is not None]
+        leafs = [c.reference for c in top.children if c.reference is not None and elab_is_leaf(c.reference) and c.reference.library is not None]
         if not leafs:
             return
         lib = top.library
